@@ -17,6 +17,13 @@ func init() {
 				c.Cfg.Consumers = append(c.Cfg.Consumers, rapid.IntRange(1, 3).Draw(t, "consconc"))
 			}
 			c.Cfg.AsyncNotify = rapid.Bool().Draw(t, "async")
+			// the adapter may come back empty-handed once in a while (a lost race on the shared store, a
+			// transient error): announced items must still be picked up without further prompting
+			if rapid.IntRange(0, 2).Draw(t, "withdeqfaults") == 0 {
+				for i := 0; i < rapid.IntRange(1, 2).Draw(t, "ndeqfaults"); i++ {
+					c.Faults = append(c.Faults, Fault{Method: "Dequeue", K: rapid.IntRange(1, 5).Draw(t, "deqfk")})
+				}
+			}
 			np := rapid.IntRange(0, 3).Draw(t, "npre")
 			for i := 0; i < np; i++ {
 				c.Cfg.PreItems = append(c.Cfg.PreItems, Item{N: 9000 + i, ID: "pre" + itoa(i), Gated: rapid.Bool().Draw(t, "pregated"), Prio: rapid.IntRange(0, 2).Draw(t, "preprio")})
@@ -104,8 +111,10 @@ func init() {
 			c.Sched = Sched{Strategy: "base"}
 			return c
 		},
-		Oracles: []oracleFn{oC15},
-		Foreign: []oracleFn{oCrash("*"), oDeadlock("C03"), oLivelock("C03")},
+		// these programs only submit, cancel, bind and resume: an event loop that spins without ever
+		// dispatching while jobs are pending is starvation
+		Oracles: []oracleFn{oC15, oLivelock("C15")},
+		Foreign: []oracleFn{oCrash("*"), oDeadlock("C03")},
 		NonTrivial: func(ix *Index) (bool, []string) {
 			cl := []string{"strategy:" + itoa(ix.C.Cfg.Strategy)}
 			kinds := map[string]bool{}
